@@ -4,6 +4,7 @@ import (
 	"fmt"
 	"reflect"
 	"sort"
+	"strings"
 
 	"github.com/paulmach/osm"
 
@@ -119,6 +120,72 @@ func oidsK(keep *interface{}, ids osm.ObjectIDs) []int64 {
 		*keep = ids
 	}
 	return oids(ids)
+}
+
+// osmAskedTwice: see checkList.
+func osmAskedTwice(name string, list []Triple) (why string) {
+	defer func() {
+		if x := recover(); x != nil {
+			why = fmt.Sprintf("panic: %v", x)
+		}
+	}()
+	o := osmOf(list)
+	ask := func() []int64 {
+		switch name {
+		case "OSM.ElementIDs":
+			ids := o.ElementIDs()
+			out := eids(ids)
+			for i := range ids {
+				ids[i] = 0
+			}
+			return out
+		case "OSM.FeatureIDs":
+			ids := o.FeatureIDs()
+			out := fids(ids)
+			for i := range ids {
+				ids[i] = 0
+			}
+			return out
+		case "OSM.Elements.ElementIDs":
+			return eids(o.Elements().ElementIDs())
+		}
+		return oids(o.Objects().ObjectIDs())
+	}
+	first := ask()
+	// edit in place: the first element of every kind gets another id and version
+	edited := append([]Triple{}, list...)
+	seen := map[string]bool{}
+	for i, t := range edited {
+		if seen[t.Kind] {
+			continue
+		}
+		seen[t.Kind] = true
+		edited[i].Ref, edited[i].Ver = t.Ref^3, t.Ver^1
+	}
+	for _, n := range o.Nodes {
+		n.ID, n.Version = n.ID^3, n.Version^1
+		break
+	}
+	for _, w := range o.Ways {
+		w.ID, w.Version = w.ID^3, w.Version^1
+		break
+	}
+	for _, x := range o.Relations {
+		x.ID, x.Version = x.ID^3, x.Version^1
+		break
+	}
+	second := ask()
+	h := helperByName(name)
+	want := h.f(edited, nil)
+	sortInts := func(v []int64) []int64 {
+		v = append([]int64{}, v...)
+		sort.Slice(v, func(i, j int) bool { return v[i] < v[j] })
+		return v
+	}
+	if !reflect.DeepEqual(sortInts(second), sortInts(want)) {
+		return fmt.Sprintf("%s on %v: first answer %v; after the caller overwrote it and edited the first element of every kind in place the second answer is %v, the document now holds %v", name, shortList(list), first, second, want)
+	}
+	return ""
 }
 
 // again converts a kept result once more.
@@ -298,6 +365,14 @@ func checkList(r *kit.Run, name string, list []Triple) {
 	}()
 	if retained != "" && pan == nil {
 		r.Violation("list-result-not-the-callers/"+name, retained, c)
+	}
+	if strings.HasPrefix(name, "OSM.") && pan == nil && len(list) > 0 && isElems(list) {
+		// the same document asked twice: the caller sorts and overwrites the first answer,
+		// then edits an element in place (same number of elements); the second answer is
+		// the ids of the document as it is then
+		if why := osmAskedTwice(name, list); why != "" {
+			r.Violation("list-second-call-on-the-same-document/"+name, why, c)
+		}
 	}
 	if pan != nil {
 		r.Violation("list-panic/"+name, fmt.Sprintf("%s panicked on %v (n=%d): %v", name, shortList(list), len(list), pan), c)
